@@ -9,7 +9,7 @@ rows = {}
 for k, c in sorted(db.contracts.items()):
     props = c.get('properties') or [c.get('property')]
     f, fn = k.split(':')
-    assumed = [n for n, s in (c.get('calls') or {}).items() if isinstance(s, dict) and s.get('assumed')]
+    assumed = [n for n, s in (c.get('calls') or {}).items() if isinstance(s, dict) and not s.get('verified_as')]
     rows.setdefault(f, []).append((fn, props, len(c.get('ensures', {})), assumed, k in db.domain if hasattr(db, 'domain') else None))
 print('| file | function (segment / variant after @) | properties | post clauses | assumed callee contracts |')
 print('|---|---|---|---|---|')
